@@ -335,7 +335,8 @@ class Alphabet:
         if 'verb' not in self.cont or not ctx[3]:
             return []
         out = []
-        for vname, body in (('verbatim', ' $ '), ('lstlisting', '\\' + self.N.x + '{'), ('verbatim', 'a}\n%c\n')):
+        for vname, body in (('verbatim', ' $ '), ('lstlisting', '\\' + self.N.x + '{'), ('verbatim', 'a}\n%c\n'),
+                            ('verbatim', '\n')):
             out.append(('\\begin{%s}%s\\end{%s}' % (vname, body, vname),
                         (('E', vname, (), (('T', body),)),), 'env'))
         return out
